@@ -122,7 +122,7 @@ def decode_all(store_objs, keys_by_user, key_files, encrypted):
 
 def direction1(run, quick, rng):
     traces = []
-    grid = c01.GRID if not quick else c01.GRID[:5]
+    grid = c01.GRID if not quick else c01.GRID[:4] + c01.GRID[-2:]
     for gi, cfg in enumerate(grid):
         for rep in range(1 if quick else 4):
             with harness.scratch() as d:
@@ -140,9 +140,25 @@ def direction1(run, quick, rng):
                     if not o.ok:
                         raise tlc.MachineryError('snapshot failed in C14 driver: %r' % o.exc)
                 config = refcodec.loads(store.objs['config'])
-                keys = {u: refcodec.Keys(config, w.users[u].key, w.users[u].password) for u in users}
                 key_files = {u: (w.users[u].key, w.users[u].password) for u in users if w.users[u].key}
-                evs = decode_all(store.objs, keys, key_files, cfg['enc'])
+                try:
+                    keys = {u: refcodec.Keys(config, w.users[u].key, w.users[u].password) for u in users}
+                except refcodec.FormatError:
+                    # a key file that does not open under the scheme recorded in config: a verdict (key: privateUnderUserKey), not a harness failure
+                    evs = []
+                    for u, (kf, pw) in sorted(key_files.items()):
+                        ver = []
+                        try:
+                            ko = refcodec.loads(kf)
+                            if isinstance(ko.get('kdf_params'), bytes) and isinstance(ko.get('kdf'), dict):
+                                ver.append('kdfParamsReadable')
+                            refcodec.Keys(config, kf, pw)
+                            ver.append('privateUnderUserKey')
+                        except Exception:  # noqa: BLE001
+                            pass
+                        evs.append({'kind': 'key', 'name': 'key of ' + u, 'verified': ver})
+                else:
+                    evs = decode_all(store.objs, keys, key_files, cfg['enc'])
                 traces.append({'encrypted': bool(cfg['enc']), 'cfg': {k: v for k, v in cfg.items()}, 'events': evs})
                 run.case(('d1', gi, rep), nontrivial=len(evs) > 3)
     verdicts, res = tlc.validate_traces('FormatTrace', 'Trace_Repo.cfg', traces)
@@ -182,7 +198,13 @@ def direction2(run, quick, rng):
             w = harness.World(store=store, concurrent=cfg['conc'])
             st = harness.settings(encrypted=cfg['enc'], cipher=cfg['cipher'], hashing=cfg['hashing'], min_length=cfg['mn'], max_length=cfg['mx'])
             w.init('a', b'pw-a', st)
-            keys = refcodec.Keys(refcodec.loads(store.objs['config']), w.users['a'].key, w.users['a'].password)
+            try:
+                keys = refcodec.Keys(refcodec.loads(store.objs['config']), w.users['a'].key, w.users['a'].password)
+            except refcodec.FormatError:
+                # the key file replicat wrote does not open under the scheme recorded in config (already a direction-1 verdict where the grid
+                # point is decoded); the independent writer cannot produce a repository for it
+                run.violation('P:Format:key:privateUnderUserKey', 'any', {'cfg': cfg, 'direction': 'independent writer: key file of init unreadable'})
+                continue
             legacy = bool(k % 2)
             sf, want = [], {}
             for f in stream:
